@@ -8,6 +8,7 @@ import (
 	"context"
 	"errors"
 	"fmt"
+	"math"
 	"strings"
 	"testing"
 
@@ -34,10 +35,13 @@ func c20Alphabet() []c20Op {
 			for _, sz := range []int{0, 1, 2, c20Limit, c20Limit + 1} {
 				ops = append(ops, c20Op{kind: "append", s: s, t: t, size: sz, display: fmt.Sprintf("Append(s%d,t%d,%dB)", s, t, sz)})
 			}
-			for _, i := range []int{-1, 0, 1, 2, -2} {
+			for _, i := range []int{-1, 0, 1, 2, -2, math.MaxInt} {
 				name := fmt.Sprint(i)
 				if i == -2 {
 					name = "last"
+				}
+				if i == math.MaxInt {
+					name = "MaxInt"
 				}
 				ops = append(ops, c20Op{kind: "after", s: s, t: t, idx: i, display: fmt.Sprintf("After(s%d,t%d,%s)", s, t, name)})
 			}
@@ -181,7 +185,7 @@ func c20Run(ops []c20Op, hist []int) verifx.SearchResult {
 				}
 				obs = "after:purged"
 				// admissible only if something after idx really is gone (checked against private state below)
-				if firstBefore < 0 || idx+1 >= firstBefore {
+				if firstBefore < 0 || idx >= firstBefore-1 {
 					return bad("after-spurious-purged", "%s reported ErrEventsPurged although every item after index %d was retained (first=%d)", op.display, idx, firstBefore)
 				}
 			default:
